@@ -309,7 +309,10 @@ def execute_threads(scen):
     repeats = 0
     for tid, ops in enumerate(scen["threads"]):
         for i, c in enumerate(ops):
-            prior = [j for j in range(i) if ops[j] == c and results[tid][j] and results[tid][j][0] == "ok"]
+            # (type-strict comparison of the call specs: 2 == 2.0 == True in Python)
+            prior = [j for j in range(i)
+                     if json.dumps(ops[j], sort_keys=True) == json.dumps(c, sort_keys=True)
+                     and results[tid][j] and results[tid][j][0] == "ok"]
             if not prior or not results[tid][i]:
                 continue
             repeats += 1
